@@ -17,6 +17,7 @@ Strings travel as arrays of Unicode code points, integers as decimal strings.
   {"op":"book","backend":s,"which":"book"|"fill","tree":[..],"col":[..],"var":[..]}
                                                -> {"lines":[[..]..],"slots":[null|{"off":n,"kind":s,"esc":b}..],"ok":[b..]}
   {"op":"nameat","off":n,"line":[..]}          -> {"v":[..]|null}
+  {"op":"linestrs","lines":[[..]..]}           -> {"lits":[[..]..]|null}       (all string literals of the lines; null if one does not lex)
   {"op":"bank","pre":[..],"suf":[..],"bank":[..]} -> {"line":[..]}
 Run: lake env lean --run FaxVerif/C18/Driver.lean
 -/
@@ -197,6 +198,13 @@ def handle (line : String) : String :=
       else if op == "nameat" then
         let off ← (← j.getObjVal? "off").getNat?
         pure (Json.mkObj [("v", jopt (nameAt off (← cps (← j.getObjVal? "line"))))])
+      else if op == "linestrs" then
+        let ls ← (← j.getObjVal? "lines").getArr?
+        let lines ← ls.toList.mapM cps
+        let res := lines.map fun l => lineStrings (l.length + 1) l
+        if res.all Option.isSome then
+          pure (Json.mkObj [("lits", Json.arr ((res.filterMap id).flatten.map jcps).toArray)])
+        else pure (Json.mkObj [("lits", Json.null)])
       else if op == "bank" then
         pure (Json.mkObj [("line", jcps (bankLine pyTable (← cps (← j.getObjVal? "pre")) (← cps (← j.getObjVal? "suf")) (← cps (← j.getObjVal? "bank"))))])
       else throw s!"unknown op {op}"
